@@ -30,7 +30,7 @@ var gfFuncs = []string{"utils.(*GaloisField).AddOrSub", "utils.(*GaloisField).Mu
 var props = []*PropDef{
 	{
 		ID:     "C01",
-		Unwind: []*Unwinder{unwQR},
+		Unwind: []*Unwinder{unwQR, unwQRBlocks, unwSelect},
 		Tables: []string{"qr/versionInfos", "qr/charCountBits", "qr/formatInfos", "qr/alignment", "gf/fields"},
 		Harness: []Harness{
 			{Pkg: "qr", File: "c01_qr_test.go", Run: "^TestVerifC01$", Bound: boundedNote + "full round trip through the independent ISO 18004 reader qrspec.Decode (mode encoders, terminator/padding, block split + interleave, RS validity): all strings of length <= 3 over a 12-symbol alphabet, capacity n-1/n/n+1 of every version x level x mode, sign characters, invalid UTF-8, seeded random contents"},
@@ -41,7 +41,7 @@ var props = []*PropDef{
 	},
 	{
 		ID:     "C02",
-		Unwind: []*Unwinder{unwDM},
+		Unwind: []*Unwinder{unwDM, unwSelect},
 		Tables: []string{"dm/codeSizes", "gf/fields"},
 		Harness: []Harness{
 			{Pkg: "datamatrix", File: "c02_dm_test.go", Run: "^TestVerifC02$", Bound: boundedNote + "full round trip through the independent ISO 16022 reader dmspec.Decode (ASCII encodation, 253-state padding, RS validity): every codeword count 0..1561, capacity +-2 of all 24 sizes, all strings of length <= 4 over 9 bytes, seeded random contents"},
@@ -137,7 +137,7 @@ var props = []*PropDef{
 	{
 		ID:     "C10",
 		Level:  "other",
-		Unwind: []*Unwinder{unwEAN, unwPDF, unwAztec, unwDM},
+		Unwind: []*Unwinder{unwEAN, unwPDF, unwAztec, unwDM, unwSelect, unwQRBlocks},
 		Funcs:  append(append([]string{}, bitlistFuncs...), "utils.(*GaloisField).Multiply", "utils.(*GaloisField).Divide", "utils.(*GaloisField).Invers"),
 		Harness: []Harness{
 			{Pkg: "qr", File: "c01_qr_test.go", Run: "^TestVerifC10QR$", Bound: boundedNote + "no panic, result xor error, accept iff expressible in the mode and within version-40 capacity"},
@@ -165,7 +165,7 @@ var props = []*PropDef{
 	},
 	{
 		ID:     "C12",
-		Unwind: []*Unwinder{unwPDF, unwDM, unwQR},
+		Unwind: []*Unwinder{unwPDF, unwDM, unwQR, unwQRBlocks, unwSelect},
 		Tables: []string{"qr/versionInfos", "qr/formatInfos", "dm/codeSizes", "pdf417/tables"},
 		Harness: []Harness{
 			{Pkg: "qr", File: "c01_qr_test.go", Run: "^TestVerifC12QR$", Bound: boundedNote + "decoded level == requested, every block has the ISO number of check words"},
@@ -178,8 +178,7 @@ var props = []*PropDef{
 	},
 	{
 		ID:     "C13",
-		Level:  "other",
-		Unwind: []*Unwinder{unwPDF},
+		Unwind: []*Unwinder{unwPDF, unwSelect},
 		Tables: []string{"qr/versionInfos", "dm/codeSizes"},
 		Harness: []Harness{
 			{Pkg: "qr", File: "c01_qr_test.go", Run: "^TestVerifC13QR$", Bound: boundedNote + "chosen version == smallest fitting version at every capacity boundary"},
